@@ -52,6 +52,29 @@ def deep_cases(prop):
                     exp = {2: ['p'], 4: ['p'], 5: ['1']}
                     nonzero = None
                 out.append((ops, exp, nonzero, 'depth %d, %s -> %s' % (depth, la.decode(), lb.decode())))
+    # breadth: containers with more children than either limit allows levels
+    N = 12000
+    wide_a = 'a%d;' % N + ''.join('n%016x,%d;' % (d2b(float(i % 97)), i % 97) for i in range(N))
+    M = 3000
+    wide_o = 'o%d;' % M + ''.join('k%s;n%016x,%d;' % ((b'm%d' % i).hex(), d2b(float(i % 89)), i % 89) for i in range(M))
+    if prop == 'C15':
+        out.append((['build 1 ' + wide_a, 'getp 2 1 %s 1' % hx(b'/%d' % (N - 1)), 'findp 1 2', 'getp 3 1 %s 1' % hx(b'/%d' % N), 'getp 3 1 =2f30 1', 'del 1'],
+                    {1: [str(N)], 2: [hx(b'/%d' % (N - 1))], 3: ['nil'], 4: ['1']}, None, 'array of %d elements' % N))
+        out.append((['build 1 ' + wide_o, 'getp 2 1 %s 1' % hx(b'/m%d' % (M - 1)), 'findp 1 2', 'getp 3 1 %s 1' % hx(b'/m%d' % M), 'del 1'],
+                    {1: [str(M)], 2: [hx(b'/m%d' % (M - 1))], 3: ['nil']}, None, 'object of %d members' % M))
+    elif prop == 'C16':
+        patch = ('a4;o3;k6f70;s616464;k70617468;s2f2d;k76616c7565;t' + 'o3;k6f70;s616464;k70617468;s%s;k76616c7565;f' % (b'/%d' % (N // 2)).hex()
+                 + 'o2;k6f70;s72656d6f7665;k70617468;s%s;' % (b'/%d' % N).hex() + 'o3;k6f70;s74657374;k70617468;s%s;k76616c7565;t' % (b'/%d' % N).hex())
+        out.append((['build 1 ' + wide_a, 'build 2 ' + patch, 'patch 1 2 1', 'size 1', 'chk 1', 'geta 1 %d 3' % (N // 2), 'is 3', 'del 1', 'del 2'],
+                    {2: ['0'], 3: [str(N + 1)], 5: [str(N // 2)], 6: [str(2 | 8)]}, None, 'patch on an array of %d elements' % N))
+    elif prop == 'C17':
+        to_a = 'a%d;' % (N + 1) + ''.join('n%016x,%d;' % (d2b(float(i % 97 if i != N // 2 else 1234)), i % 97 if i != N // 2 else 1234) for i in range(N)) + 't'
+        out.append((['build 1 ' + wide_a, 'build 2 ' + to_a, 'genp 3 1 2 1', 'size 3', 'build 4 ' + wide_a, 'patch 4 3 1', 'cmp 4 2 1', 'chk 1', 'chk 2', 'del 1', 'del 2', 'del 3', 'del 4'],
+                    {2: ['p'], 3: ['2'], 5: ['0'], 6: ['1']}, None, 'arrays of %d elements' % N))
+    elif prop == 'C18':
+        to_o = 'o%d;' % (M - 1) + ''.join('k%s;n%016x,%d;' % ((b'm%d' % i).hex(), d2b(float(i % 89 if i != 7 else 555)), i % 89 if i != 7 else 555) for i in range(M) if i != M // 2)
+        out.append((['build 1 ' + wide_o, 'build 2 ' + to_o, 'genm 3 1 2 1', 'size 3', 'build 4 ' + wide_o, 'merge 5 4 3 1', 'cmp 5 2 1', 'chk 1', 'chk 2', 'del 1', 'del 2', 'del 3', 'del 5'],
+                    {2: ['p'], 3: ['2'], 5: ['p'], 6: ['1']}, None, 'objects of %d members' % M))
     if prop in ('C17', 'C18'):
         # documents deeper than the parser allows can be built through the API: the innermost object
         # loses / gains / changes a member
